@@ -96,11 +96,15 @@ except Exception as e:
     return False, last
 
 
-def run_module(path, timeout, jobs=16, only=None, twins=True):
+UNBLOCK = ["open", "os.mkdir", "os.rmdir", "os.remove", "os.unlink", "os.scandir", "os.listdir", "shutil.rmtree", "tempfile.mkdtemp", "os.chmod", "os.rename", "os.open"]
+
+
+def run_module(path, timeout, jobs=16, only=None, twins=True, unblock=False):
     conds = [(n, l) for n, l in conditions(path) if (only is None or n in only)]
     results = {}
+    extra = ("--unblock=EVERYTHING",) if unblock else ()
     with cf.ThreadPoolExecutor(max_workers=jobs) as ex:
-        futs = {ex.submit(run_condition, path, n, l, timeout): n for n, l in conds}
+        futs = {ex.submit(run_condition, path, n, l, timeout, extra): n for n, l in conds}
         for f in cf.as_completed(futs):
             results[futs[f]] = f.result()
     return [results[n] for n, _ in conds]
